@@ -99,7 +99,8 @@ RKTable == <<
     <<"until", <<10>>, 0>>, <<"until", <<13, 10>>, 0>>, <<"until", <<10>>, 2>>, <<"until", <<13, 10>>, 3>>,   \* 11-14
     <<"regex", 1, 0>>, <<"regex", 1, 3>>, <<"regex", 2, 0>>, <<"regex", 2, 2>>,                               \* 15-18
     <<"close">>,                                                                                              \* 19
-    <<"until", <<10>>, 1>>, <<"until", <<97, 98>>, 0>>, <<"regex", 2, 3>>, <<"bytes", 5, 0>>, <<"into", 5, 1>> \* 20-24
+    <<"until", <<10>>, 1>>, <<"until", <<97, 98>>, 0>>, <<"regex", 2, 3>>, <<"bytes", 5, 0>>, <<"into", 5, 1>>, \* 20-24
+    <<"until", <<10, 10>>, 0>>, <<"until", <<10, 10>>, 3>>                                                    \* 25-26
 >>
 ReadKinds == {RKTable[i] : i \in ReadIds}
 
